@@ -316,12 +316,16 @@ inductive Op where
   | enable (b : Bool)
   | fund (d : Denom) (a : Nat)
   | block
+  | restart      -- export of the module's genesis, validation, re-import (the pool is bank state and stays)
+  | discarded    -- a BeginBlock executed on a context that is then dropped (simulation, failed transaction)
 
 def stepOp (s : State) : Op → Outcome State
   | .reward es => (match setReward s es with | .ok s' => .ok s' | _ => .ok s)   -- rejected change: state kept
   | .enable b => .ok { s with enabled := b }
   | .fund d a => .ok (fund s d a)
   | .block => beginBlock s
+  | .restart => .ok s
+  | .discarded => .ok s
 
 def runOps : State → List Op → Outcome State
   | s, [] => .ok s
@@ -360,6 +364,37 @@ theorem stepOp_inv (s : State) (o : Op) (h : Inv s) : ∃ s', stepOp s o = .ok s
       exact ⟨s', h1, by rw [h4]; exact h.1, fun d => (h2 d).2⟩
     · have : beginBlock s = .ok s := by simp [beginBlock, hen]
       exact ⟨s, this, h⟩
+  | restart => exact ⟨s, rfl, h⟩
+  | discarded => exact ⟨s, rfl, h⟩
+
+/-- **restart_identity** — exporting and re-importing the module, and executions that are discarded, leave the
+    state the property talks about (parameters, pool, fee collector) unchanged; histories may contain them anywhere
+    (`over_blocks`, `every_block_moves_min` range over `Op`, which has both constructors). -/
+theorem restart_identity (s : State) : stepOp s .restart = .ok s ∧ stepOp s .discarded = .ok s := ⟨rfl, rfl⟩
+
+/-- removing restarts and discarded executions from a history does not change where it ends -/
+theorem restarts_invisible (ops : List Op) (s : State) :
+    runOps s ops = runOps s (ops.filter (fun o => match o with | .restart => false | .discarded => false | _ => true)) := by
+  induction ops generalizing s with
+  | nil => rfl
+  | cons o os ih =>
+    cases o with
+    | restart => simpa [List.filter, runOps, stepOp] using ih s
+    | discarded => simpa [List.filter, runOps, stepOp] using ih s
+    | enable b => simpa [List.filter, runOps, stepOp] using ih _
+    | fund d a => simpa [List.filter, runOps, stepOp] using ih _
+    | reward es =>
+      simp only [List.filter, runOps]
+      cases h : stepOp s (.reward es) with
+      | ok s' => simpa using ih s'
+      | err e => rfl
+      | panic p => rfl
+    | block =>
+      simp only [List.filter, runOps]
+      cases h : stepOp s .block with
+      | ok s' => simpa using ih s'
+      | err e => rfl
+      | panic p => rfl
 
 /-- **over_blocks** — every history of parameter changes (validated the way the chain validates them),
     funding and blocks, of any length, runs without panic and keeps the invariant under which
